@@ -64,6 +64,11 @@ CHECKS = {
     note="Trusted: TLC, Linalg.tla, drv_linalg.cpp. Two input classes are known findings (matmul v1 with a 1-d operand; trace over negative-offset/empty diagonals).",
     technique="TLA+ reference semantics (exact integer sums) + TLC identity checking; trace validation of the real routines by TLC",
     design="5/C16"),
+ "C17": dict(
+    text="NN.tla defines convolution (stride, zero padding, dilation, groups, bias), max/avg pooling (kernel, stride, ceil mode with overhanging windows) and linear as nested sums over exactly the window elements; TLC checks the output-size formulas against direct window counting and identity/subsampling laws over the parameter space; the parameter product space of the property is executed on the real conv1d/conv2d/pooling/linear views with integer-valued data and TraceOps.tla decides shape and every element (avg pooling after scaling by kh!*kw!).",
+    note="Trusted: TLC, NN.tla (PyTorch definitions), drv_nn.cpp. softmax/softmin, normalisation layers, bilinear, pairwise_distance and cosine_similarity are NOT decided (exp/sqrt/division are outside TLC). Four input classes are known findings.",
+    technique="TLA+ reference semantics (exact integer sums) + TLC law checking of the size formulas; trace validation of the real routines by TLC",
+    design="5/C17"),
 }
 
 NOT_APPLICABLE = {}
